@@ -19,6 +19,7 @@ import (
 	"errors"
 	"fmt"
 	"io"
+	"math/big"
 	"math/rand"
 	"os"
 	"path/filepath"
@@ -61,6 +62,44 @@ type vKey struct {
 	index int
 }
 
+// RFC 7638 thumbprint of an EC public JWK given as JSON map, calculated here (no jwx, no nutsCrypto):
+// SHA-256 over {"crv":..,"kty":"EC","x":..,"y":..} with the members in lexicographic order
+func vThumb(m map[string]interface{}) ([]byte, bool) {
+	crv, ok1 := m["crv"].(string)
+	kty, ok2 := m["kty"].(string)
+	x, ok3 := m["x"].(string)
+	y, ok4 := m["y"].(string)
+	if !ok1 || !ok2 || !ok3 || !ok4 || kty != "EC" {
+		return nil, false
+	}
+	q := func(v string) string { b, _ := json.Marshal(v); return string(b) }
+	h := sha256.Sum256([]byte(`{"crv":` + q(crv) + `,"kty":"EC","x":` + q(x) + `,"y":` + q(y) + `}`))
+	return h[:], true
+}
+
+const vB58Alphabet = "123456789ABCDEFGHJKLMNPQRSTUVWXYZabcdefghijkmnopqrstuvwxyz"
+
+// base58 (bitcoin alphabet), own implementation
+func vBase58(b []byte) string {
+	n := new(big.Int).SetBytes(b)
+	var out []byte
+	radix, zero, mod := big.NewInt(58), big.NewInt(0), new(big.Int)
+	for n.Cmp(zero) > 0 {
+		n.DivMod(n, radix, mod)
+		out = append(out, vB58Alphabet[mod.Int64()])
+	}
+	for _, c := range b {
+		if c != 0 {
+			break
+		}
+		out = append(out, '1')
+	}
+	for i, j := 0, len(out)-1; i < j; i, j = i+1, j-1 {
+		out[i], out[j] = out[j], out[i]
+	}
+	return string(out)
+}
+
 func vNewKey(i int) *vKey {
 	k, err := nutsCrypto.GenerateJWK()
 	if err != nil {
@@ -75,8 +114,11 @@ func vNewKey(i int) *vKey {
 	m := map[string]interface{}{}
 	_ = json.Unmarshal(b, &m)
 	delete(m, "kid")
-	tp, _ := pubJ.Thumbprint(crypto.SHA256)
-	b58, _ := nutsCrypto.Thumbprint(pubJ)
+	tp, ok := vThumb(m)
+	if !ok {
+		panic("generated key is not an EC JWK")
+	}
+	b58 := vBase58(tp)
 	return &vKey{priv: k, pub: raw.(crypto.PublicKey), pubM: m, b64: base64.RawURLEncoding.EncodeToString(tp), b58: b58, did: "did:nuts:" + b58, index: i}
 }
 
@@ -284,6 +326,9 @@ func vKeyName(vm *did.VerificationMethod) string {
 	if k == nil {
 		return ""
 	}
+	if tp, ok := vThumb(vm.PublicKeyJwk); ok {
+		return base64.RawURLEncoding.EncodeToString(tp)
+	}
 	tp, err := k.Thumbprint(crypto.SHA256)
 	if err != nil {
 		return "!"
@@ -478,10 +523,16 @@ func vTxViewOf(t vTx, signer string) vTxView {
 		v.Prevs = append(v.Prevs, p.String())
 	}
 	if sk := t.SigningKey(); sk != nil {
-		tp, _ := sk.Thumbprint(crypto.SHA256)
+		jb, _ := json.Marshal(sk)
+		jm := map[string]interface{}{}
+		_ = json.Unmarshal(jb, &jm)
+		tp, ok := vThumb(jm)
+		if !ok {
+			tp, _ = sk.Thumbprint(crypto.SHA256)
+		}
 		n := base64.RawURLEncoding.EncodeToString(tp)
 		v.Embedded = &n
-		v.EmbeddedDid, _ = nutsCrypto.Thumbprint(sk)
+		v.EmbeddedDid = vBase58(tp)
 	} else {
 		kid := t.SigningKeyID()
 		if u, err := did.ParseDIDURL(kid); err == nil {
@@ -524,7 +575,8 @@ func vNewNode(t *testing.T, ctrl *gomock.Controller, path string) *vNode {
 	n.amb = NewAmbassador(nw, st, nil).(*ambassador)
 	n.res = Resolver{Store: st}
 	n.keyRes = dag.SourceTXKeyResolver{Resolver: n.res}
-	n.verifier = dag.NewTransactionSignatureVerifier(n.keyRes)
+	// the DAG's signature verifier is wired as in Network.Configure: its key resolver reads the DID store directly
+	n.verifier = dag.NewTransactionSignatureVerifier(dag.SourceTXKeyResolver{Resolver: st})
 	return n
 }
 
@@ -666,7 +718,7 @@ func (n *vNode) deliver(p *vPair) (class string) {
 		}
 	}()
 	if n.noVerify {
-		return vCallbackClass(n.amb.callback(p.tx, p.payload))
+		return n.viaSubscriber(p)
 	}
 	if err := n.verifier(nil, p.tx); err != nil {
 		if strings.HasPrefix(err.Error(), "unable to verify transaction signature, can't resolve key by TX ref") {
@@ -674,7 +726,21 @@ func (n *vNode) deliver(p *vPair) (class string) {
 		}
 		return "err:sig:invalid"
 	}
-	return vCallbackClass(n.amb.callback(p.tx, p.payload))
+	return n.viaSubscriber(p)
+}
+
+// the callback is entered the way the network enters it: through the subscriber function handleNetworkEvent
+func (n *vNode) viaSubscriber(p *vPair) string {
+	finished, err := n.amb.handleNetworkEvent(dag.Event{Type: dag.PayloadEventType, Hash: p.tx.Ref(), Transaction: p.tx, Payload: p.payload})
+	var fatal dag.EventFatal
+	if errors.As(err, &fatal) {
+		err = fatal.Err
+	}
+	class := vCallbackClass(err)
+	if finished != (err == nil) {
+		class += "+FINISHED-MISMATCH"
+	}
+	return class
 }
 
 // ---------------------------------------------------------------------------------------------
@@ -886,6 +952,7 @@ type vGen struct {
 	allRefs []hash.SHA256Hash
 	pairs   []*vPair
 	pending func(ok bool) // bookkeeping to run once the outcome of the last pair is known
+	queued  []func() *vPair // follow-up steps to take next
 }
 
 func (g *vGen) freshKey() *vKey {
@@ -1183,7 +1250,8 @@ func vDeactivate(s *vDocSpec) {
 var vViolations = []string{"no-did-context", "vm-no-fragment", "vm-duplicate-id", "vm-foreign-prefix", "vm-thumbprint-mismatch", "vm-bad-jwk",
 	"vm-blank-type", "vm-no-controller", "svc-no-fragment", "svc-duplicate-id", "svc-foreign-prefix", "svc-duplicate-type", "svc-blank-type",
 	"svc-no-endpoint", "svc-number-endpoint", "rel-unknown-reference", "rel-embedded-blank-type", "not-json",
-	"vm-no-jwk", "vm-empty-key-fragment", "ctx-only-object", "vm-kid-in-jwk", "vm-keyswap-known-id", "vm-known-id-other-did"}
+	"vm-no-jwk", "vm-empty-key-fragment", "ctx-only-object", "vm-kid-in-jwk", "vm-keyswap-known-id", "vm-known-id-other-did",
+	"vm-prefix-extension", "vm-prefix-truncated", "svc-prefix-extension", "svc-prefix-truncated"}
 
 func (g *vGen) violate(which string, s *vDocSpec) {
 	other := "did:nuts:" + g.keys[0].b58
@@ -1242,6 +1310,16 @@ func (g *vGen) violate(which string, s *vDocSpec) {
 	case "vm-empty-key-fragment":
 		k := g.freshKey()
 		s.VMs = append(s.VMs, vVMSpec{ID: s.ID + "#", Key: k})
+	case "vm-prefix-extension": // the id's DID merely starts with the document's DID
+		k := g.freshKey()
+		s.VMs = append(s.VMs, vVMSpec{ID: s.ID + "x#" + k.b64, Key: k})
+	case "vm-prefix-truncated": // the document's DID merely starts with the id's DID
+		k := g.freshKey()
+		s.VMs = append(s.VMs, vVMSpec{ID: s.ID[:len(s.ID)-1] + "#" + k.b64, Key: k})
+	case "svc-prefix-extension":
+		s.Svcs = append(s.Svcs, vSvcSpec{ID: s.ID + "x#svc-pe", Type: "type-pe", Endpoint: "https://example.com"})
+	case "svc-prefix-truncated":
+		s.Svcs = append(s.Svcs, vSvcSpec{ID: s.ID[:len(s.ID)-2] + "#svc-pt", Type: "type-pt", Endpoint: "https://example.com"})
 	case "vm-kid-in-jwk": // the JWK carries its own "kid" equal to the (arbitrary) fragment
 		k := g.freshKey()
 		frag := "named-" + k.b64[:8]
@@ -1298,6 +1376,40 @@ func (g *vGen) createNearDID(kind string, k *vKey, n int, ext string) *vPair {
 	})
 }
 
+func (g *vGen) createCaseVariantDID(k *vKey) *vPair {
+	b := []byte(k.b58)
+	for i, c := range b {
+		sw := c
+		switch {
+		case c >= 'a' && c <= 'z' && c != 'l':
+			sw = c - 32
+		case c >= 'A' && c <= 'Z' && c != 'I' && c != 'O':
+			sw = c + 32
+		}
+		if sw != c && strings.IndexByte(vB58Alphabet, sw) >= 0 {
+			b[i] = sw
+			break
+		}
+	}
+	spec := vDocUnderDID(k, "did:nuts:"+string(b))
+	prevs := g.randomPrevsForCreate()
+	return g.emit("create-did-case-variant-of-thumbprint", spec.payload(), vSignSpec{key: k, kid: k.did + "#" + k.b64, attach: k, prevs: prevs, clock: g.clockFor(prevs)}, nil)
+}
+
+// a fresh key whose thumbprint shares its first byte (and so its first base64 character) with the given key's
+func (g *vGen) collidingKey(with *vKey) *vKey {
+	want, _ := base64.RawURLEncoding.DecodeString(with.b64)
+	for tries := 0; tries < 4000; tries++ {
+		k := vNewKey(len(g.keys))
+		got, _ := base64.RawURLEncoding.DecodeString(k.b64)
+		if len(got) > 0 && len(want) > 0 && got[0] == want[0] {
+			g.keys = append(g.keys, k)
+			return k
+		}
+	}
+	return g.freshKey()
+}
+
 // ---- scenario steps. Each returns the emitted pair (bookkeeping runs when the outcome is known).
 
 func (g *vGen) stepRandom() *vPair {
@@ -1319,6 +1431,8 @@ func (g *vGen) stepRandom() *vPair {
 			}
 		}
 		return g.create("create", ctrl, nil, nil)
+	case r < 20 && g.rng.Intn(3) == 0: // the DID differs from the thumbprint only by the case of one letter
+		return g.createCaseVariantDID(g.freshKey())
 	case r < 20: // creation with a foreign key: the embedded key is not the one the DID is derived from
 		return g.create("create-foreign-key", nil, nil, func(s *vSignSpec, k *vKey) {
 			f := g.freshKey()
@@ -1326,7 +1440,7 @@ func (g *vGen) stepRandom() *vPair {
 		})
 	case r < 21: // the DID is a truncated / extended form of the embedded key's thumbprint, the document otherwise well-formed
 		k := g.freshKey()
-		switch g.rng.Intn(5) {
+		switch g.rng.Intn(6) {
 		case 0:
 			return g.createNearDID("create-did-prefix-of-thumbprint", k, 1, "")
 		case 1:
@@ -1335,8 +1449,10 @@ func (g *vGen) stepRandom() *vPair {
 			return g.createNearDID("create-did-prefix-of-thumbprint", k, 2+g.rng.Intn(len(k.b58)-3), "")
 		case 3:
 			return g.createNearDID("create-did-extension-of-thumbprint", k, 0, "A")
-		default:
+		case 4:
 			return g.createNearDID("create-did-extension-of-thumbprint", k, 0, k.b58[:3])
+		default: // same letters, one of them in the other case
+			return g.createCaseVariantDID(k)
 		}
 	case r < 23: // embedded key differs from the key that signs
 		return g.create("create-embedded-not-signer", nil, nil, func(s *vSignSpec, k *vKey) {
@@ -1375,6 +1491,45 @@ func (g *vGen) stepRandom() *vPair {
 		stranger:
 			k := g.freshKey()
 			return k, l.spec.ID + "#" + k.b64, nil
+		}})
+	case r < 65 && len(active.latest().spec.capInvKeys()) > 0: // a stranger's key whose thumbprint starts like a listed key's; or: the kid of a listed key, signed by another key
+		l := active.latest()
+		legit := l.spec.capInvKeys()[0]
+		if g.rng.Intn(2) == 0 {
+			k := g.collidingKey(legit.Key)
+			// published as verification method (not capabilityInvocation) of a fresh self-controlled DID so that the kid resolves
+			holder := g.freshKey()
+			pub := g.create("create-publishing-colliding-key", nil, func(s *vDocSpec, _ *vKey) {
+				s.VMs = append(s.VMs, vVMSpec{ID: s.ID + "#" + k.b64, Key: k})
+				s.Rels["assertionMethod"] = append(s.Rels["assertionMethod"], s.ID+"#"+k.b64)
+			}, nil)
+			_ = holder
+			g.queued = append(g.queued, func() *vPair {
+				h := g.dids[g.order[len(g.order)-1]]
+				if h == nil || h.latest() == nil || !vActive(active) {
+					return nil
+				}
+				return g.update(vUpdateOpts{kind: "update-by-key-with-colliding-thumbprint-prefix", target: active, next: g.randomEdit, signer: func() (*vKey, string, []hash.SHA256Hash) {
+					return k, h.latest().spec.ID + "#" + k.b64, []hash.SHA256Hash{h.latest().ref}
+				}})
+			})
+			return pub
+		}
+		if len(l.spec.Ctrl) == 0 {
+			other := g.freshKey()
+			return g.update(vUpdateOpts{kind: "update-kid-of-listed-key-signed-by-other-key", target: active, next: g.randomEdit, signer: func() (*vKey, string, []hash.SHA256Hash) {
+				return other, legit.ID, nil
+			}})
+		}
+		return g.update(vUpdateOpts{kind: "update", target: active, next: g.randomEdit})
+	case r < 66 && len(active.versions) > 1: // prevs name two different versions of the DID (both orders occur)
+		a, b := active.versions[g.rng.Intn(len(active.versions))], active.versions[g.rng.Intn(len(active.versions))]
+		return g.update(vUpdateOpts{kind: "update-two-own-prevs", target: active, from: &a, next: g.randomEdit, signer: func() (*vKey, string, []hash.SHA256Hash) {
+			ks := a.spec.capInvKeys()
+			if len(ks) == 0 {
+				return active.key, a.spec.ID + "#" + active.key.b64, []hash.SHA256Hash{b.ref}
+			}
+			return ks[0].Key, ks[0].ID, []hash.SHA256Hash{b.ref}
 		}})
 	case r < 71: // signed by a key that an earlier version listed and the succeeded version no longer lists
 		d := g.someDid(func(d *vDid) bool { return len(d.versions) > 1 })
@@ -1660,6 +1815,14 @@ func (r *vRunner) genHistory(h int, rng *rand.Rand, steps int, kind string, noVe
 	}
 	vScenario(g, kind, run)
 	for len(g.pairs) < steps {
+		if len(g.queued) > 0 {
+			q := g.queued[0]
+			g.queued = g.queued[1:]
+			if p := q(); p != nil {
+				run(p)
+				continue
+			}
+		}
 		run(g.stepRandom())
 		if g.rng.Intn(12) == 0 && len(g.pairs) > 0 { // re-delivery of an earlier pair
 			old := g.pairs[g.rng.Intn(len(g.pairs))]
@@ -1813,6 +1976,7 @@ func vScenario(g *vGen, kind string, run func(p *vPair) bool) {
 			run(g.createNearDID("create-did-prefix-of-thumbprint", g.freshKey(), n, ""))
 		}
 		run(g.createNearDID("create-did-extension-of-thumbprint", g.freshKey(), 0, "1"))
+		run(g.createCaseVariantDID(g.freshKey()))
 		run(g.createNearDID("create-did-prefix-of-thumbprint", k, 1, ""))
 		for tries := 0; tries < 80; tries++ {
 			k2 := g.freshKey()
